@@ -54,7 +54,7 @@ def run_shard(shard, ctx):
 
 def _words_menu(nw, np):
     return [('None', None, np.arange(nw)), ('int-first', 0, 0), ('int-last', nw - 1, nw - 1), ('one-list', [3], np.array([3])),
-            ('perm-list', [2, 0, 5, 1], np.array([2, 0, 5, 1])), ('rep-array', np.array([1, 1, 4]), np.array([1, 1, 4])),
+            ('perm-list', [2, 0, 5, 1], np.array([2, 0, 5, 1])), ('perm-contig', [0, 2, 1, 3], np.array([0, 2, 1, 3])), ('perm-contig-nd', np.array([4, 6, 5, 7]), np.array([4, 6, 5, 7])), ('rep-array', np.array([1, 1, 4]), np.array([1, 1, 4])),
             ('step-slice', slice(1, None, 3), np.arange(nw)[1::3])]
 
 
